@@ -1,14 +1,14 @@
 #!/bin/sh
 # tools/regen_evidence.sh: run every registered quick check on /repo (evidence rewritten), then validate evidence and manifest.
 cd /verif
-for c in C01 C02 C03 C04 C05 C06 C07 C08 C09 C10 C11 C12 C13 C14 C15 C16 C17 C18 C19 C20; do
+for c in C01 C02 C03 C04 C05 C06 C07 C08 C09 C10 C11 C12 C13 C14 C15 C16 C17 C18 C19 C20 X01 X02 X03 X04 X05 X06 X07 X08 X09; do
   r=$(VERIF_SEED=1 timeout 2400 ./check $c --tier quick 2>&1 | grep -E "^OK|^VIOLATION|^MACHINERY" | tr '\n' ' ' | cut -c1-200)
   echo "$c: $r"
 done
 python3-vt - <<'PY'
 import json, glob, jsonschema
 sch=json.load(open('/root/.vp/EVIDENCE.schema.json'))
-for f in sorted(glob.glob('/verif/evidence/C*.json')):
+for f in sorted(glob.glob('/verif/evidence/[CX]*.json')):
     try:
         jsonschema.validate(json.load(open(f)), sch); print('evidence ok', f)
     except Exception as ex:
